@@ -38,11 +38,13 @@ build_probe() {
   cp "$HERE/ffi_probe/src/lib.rs" "$dir/src/lib.rs"
   cp "$VERIF_REPO/Cargo.lock" "$dir/Cargo.lock"
   local log="$HERE/.cache/probe.$$.log"
-  ( flock 9; cd "$dir" && RUSTFLAGS="--cfg mscript_verif" CARGO_TARGET_DIR="${MSV_TARGET}-ffi" cargo build --offline >"$log" 2>&1 ) 9>"$HERE/.cache/build.lock"
+  ( flock 9; cd "$dir" && RUSTFLAGS="--cfg mscript_verif" CARGO_TARGET_DIR="${MSV_TARGET}-ffi" cargo build --offline >"$log" 2>&1 \
+      && RUSTFLAGS="--cfg mscript_verif" CARGO_TARGET_DIR="${MSV_TARGET}-ffi2" cargo build --offline --features second >>"$log" 2>&1 ) 9>"$HERE/.cache/build.lock"
   local rc=$?
   if [ $rc -ne 0 ]; then echo "INFRA: build of the FFI probe failed:" >&2; tail -20 "$log" >&2; rm -f "$log"; return 2; fi
   rm -f "$log"
   export MSV_PROBE="${MSV_TARGET}-ffi/debug/libmsv_ffi_probe.so"
+  export MSV_PROBE2="${MSV_TARGET}-ffi2/debug/libmsv_ffi_probe.so"
 }
 
 case "${1:-}" in
